@@ -218,7 +218,11 @@ class Ctx:
                 if len(self.k_fail) < 20:
                     self.k_fail.append(dict(stream=name, variant=variant, op=op, impl=a, model=b))
             self.hist[(name, a.split(" ", 2)[1] if " " in a else a)] += 1
-            if nontrivial is None or nontrivial(op, a):
+            try:
+                nt = nontrivial is None or nontrivial(op, a)
+            except Exception:          # a FAULT line has no fields to look at: a crash is never trivial
+                nt = True
+            if nt:
                 self.nontrivial.add(op)
         self.evals += len(ops)
         st = self.streams.setdefault(name + "@" + variant, dict(ops=0, k_mismatch=0))
@@ -269,6 +273,9 @@ class Ctx:
 
         # crashes of the real code are concrete failing inputs
         for cr in self.crashes:
+            if cr["kind"] == "gave-up":
+                self.note(cr["stderr"])
+                continue
             self.S("the library faults (%s)" % cr["kind"], op=cr.get("op"), variant=cr.get("variant"), stderr=cr.get("stderr", "")[-600:])
         unlisted = []
         for s in self.s_fail:
